@@ -163,6 +163,8 @@ def hasNonScalar (r : Rep) : Bool :=
 def hasHole (r : Rep) : Bool := r.anyNode (fun | .str _ rs => rs.any (· < 0) | _ => false)
 def hasStarName (r : Rep) : Bool :=
   r.anyNode (fun | .tup as => as.any (fun a => a.1 == [42]) | .rel names _ => names.any (· == [42]) | _ => false)
+def hasAmpPair (r : Rep) : Bool :=
+  r.anyNode (fun | .tup as => ampPair (as.map Prod.fst) | .rel names _ => ampPair names | _ => false)
 def hasDupKey (r : Rep) : Bool :=
   r.anyNode (fun | .dict es => !allDistinct ((denPairs es).map Prod.fst) | _ => false)
 
@@ -172,6 +174,7 @@ def cls (r : Rep) : String :=
   else if r.hasHole then "KF-string-holes-print"
   else if r.hasDupKey then "KF-dict-dupkey-print"
   else if r.hasStarName then "KF-star-attr-print"
+  else if r.hasAmpPair then "KF-tuple-amp-counterpart"
   else "good"   -- not produced by the generator (number outside the guard, hole at an end of an array)
 
 /-- the characters `arrai eval` writes for a top-level string: `string(s.s)` (holes become U+FFFD) -/
